@@ -1,6 +1,7 @@
 use crate::ast;
 use crate::collections::HashMap;
 use crate::collections::HashSet;
+use crate::collections::IndexSet;
 use crate::executable;
 use crate::parser::SourceSpan;
 use crate::validation::diagnostics::DiagnosticData;
@@ -100,10 +101,13 @@ pub(crate) fn validate_subscription(
     }
 
     let mut field_names = vec![];
+    // Selections with the same response key are merged into one root field
+    let mut response_keys = IndexSet::default();
 
     let walked = walk_selections(document, &operation.selection_set, |selection| {
         if let executable::Selection::Field(field) = selection {
             field_names.push(field.name.clone());
+            response_keys.insert(field.response_key().clone());
             if matches!(field.name.as_str(), "__type" | "__schema" | "__typename") {
                 diagnostics.push(
                     field.location(),
@@ -135,7 +139,7 @@ pub(crate) fn validate_subscription(
         return;
     }
 
-    if field_names.len() > 1 {
+    if response_keys.len() > 1 {
         diagnostics.push(
             operation.location(),
             executable::BuildError::SubscriptionUsesMultipleFields {
